@@ -135,7 +135,16 @@ def shrink_source(src, firstlineno, fp, budget_s=20.0):
         break
     except Exception:  # pylint: disable=broad-except
       continue
-  # 2. greedy statement removal
+  # 2. chunked statement removal (halves, quarters, ... single statements), outermost bodies first
+  def bodies_of(tree):
+    out = []
+    for node in ast.walk(tree):
+      for field in ("body", "orelse", "finalbody"):
+        b = getattr(node, field, None)
+        if isinstance(b, list) and b and isinstance(b[0], ast.stmt):
+          out.append(b)
+    return out
+
   changed = True
   while changed and time.time() < deadline:
     changed = False
@@ -143,36 +152,46 @@ def shrink_source(src, firstlineno, fp, budget_s=20.0):
       tree = ast.parse(best)
     except SyntaxError:
       break
-    bodies = []
-    for node in ast.walk(tree):
-      for field in ("body", "orelse", "finalbody"):
-        b = getattr(node, field, None)
-        if isinstance(b, list) and b and isinstance(b[0], ast.stmt):
-          bodies.append(b)
-    for b in bodies:
-      for i in range(len(b) - 1, -1, -1):
-        if time.time() > deadline:
-          return best
-        saved = b[i]
-        if len(b) == 1:
-          if isinstance(saved, ast.Pass):
-            continue
-          b[i] = ast.Pass()
-        else:
-          del b[i]
-        try:
-          cand = ast.unparse(tree) + "\n"
-          ok = violates(cand, fp)
-        except Exception:  # pylint: disable=broad-except
-          ok = False
-        if ok:
-          best = cand
-          changed = True
-        else:
-          if len(b) == 1 and isinstance(b[0], ast.Pass) and not isinstance(saved, ast.Pass):
-            b[i] = saved
+    n_bodies = len(bodies_of(tree))
+    for bi in range(n_bodies):
+      if time.time() > deadline:
+        return best
+      bs = bodies_of(tree)
+      if bi >= len(bs):
+        break
+      b = bs[bi]
+      size = max(1, len(b) // 2)
+      while size >= 1 and time.time() < deadline:
+        i = 0
+        progressed = False
+        while i < len(b) and time.time() < deadline:
+          saved = b[i:i + size]
+          if len(saved) == len(b):
+            if len(b) == 1 and isinstance(b[0], ast.Pass):
+              break
+            b[:] = [ast.Pass()]
           else:
-            b.insert(i, saved)
+            del b[i:i + size]
+          try:
+            cand = ast.unparse(tree) + "\n"
+            ok = violates(cand, fp)
+          except Exception:  # pylint: disable=broad-except
+            ok = False
+          if ok:
+            best = cand
+            changed = progressed = True
+          else:
+            if len(b) == 1 and isinstance(b[0], ast.Pass) and len(saved) >= 1 and not (
+                len(saved) == 1 and isinstance(saved[0], ast.Pass)):
+              b[:] = saved
+            else:
+              b[i:i] = saved
+            i += size
+        if size == 1 and not progressed:
+          break
+        size = size // 2 if not progressed or size > 1 else 1
+        if size == 0:
+          break
   return best
 
 
